@@ -16,7 +16,7 @@
      f32_ops  binary32, bit exact (LMBase.IEEE, Flocq) : what the code computes
      xq_ops   extended rationals (exact arithmetic, +inf, -inf, NaN) : what the
               property is proved about (C08 is false of binary32, see DiscIEEE.v). *)
-From Coq Require Import List ZArith QArith Qround Bool Arith.
+From Coq Require Import List ZArith QArith Qabs Qround Bool Arith.
 From Flocq Require Import BinarySingleNaN.
 From LMBase Require Import Res ListX IEEE.
 Import ListNotations.
@@ -50,13 +50,14 @@ Record NumOps (T : Type) : Type := {
   n_sub : T -> T -> T;
   n_mul : T -> T -> T;
   n_div : T -> T -> T;
+  n_abs : T -> T;                      (* f32::abs *)
   n_cmp : T -> T -> option comparison; (* PartialOrd::partial_cmp *)
   n_ceil_u8 : T -> Z;                  (* x.ceil() as u8 *)
   n_floor_u8 : T -> Z;                 (* x.floor() as u8 *)
   n_of_u8 : Z -> T                     (* b as f32 *)
 }.
 Arguments n_zero {T}. Arguments n_sum0 {T}. Arguments n_add {T}. Arguments n_sub {T}.
-Arguments n_mul {T}. Arguments n_div {T}. Arguments n_cmp {T}. Arguments n_ceil_u8 {T}.
+Arguments n_mul {T}. Arguments n_div {T}. Arguments n_abs {T}. Arguments n_cmp {T}. Arguments n_ceil_u8 {T}.
 Arguments n_floor_u8 {T}. Arguments n_of_u8 {T}.
 
 (* ---------- striped sequences and score matrices ---------- *)
@@ -294,7 +295,8 @@ Section Num.
     mx <- max_score K m ;;
     offsets <- row_mins K m ;;
     let offset := sum_from (n_sum0 N) offsets in
-    let factor := n_div N (n_sub N mx offset) (n_of_u8 N 255) in
+    (* (max_score - offset).abs() / 255: max_score >= offset, so abs only turns -0.0 into +0.0 *)
+    let factor := n_div N (n_abs N (n_sub N mx offset)) (n_of_u8 N 255) in
     Ok {| d_data := disc_rows factor m offsets; d_factor := factor; d_offsets := offsets; d_offset := offset |}.
 
   (* DiscreteMatrix::scale: ((score - self.offset) / self.factor).floor() as u8 *)
@@ -343,7 +345,7 @@ Definition window (K : nat) (s : list nat) (pos M : nat) : list nat :=
 Definition f32_ops : NumOps F32.t := {|
   n_zero := F32.zero;
   n_sum0 := F32.nzero;          (* <f32 as Sum<&f32>>::sum folds from -0.0 (rustc 1.95) *)
-  n_add := F32.add; n_sub := F32.sub; n_mul := F32.mul; n_div := F32.div;
+  n_add := F32.add; n_sub := F32.sub; n_mul := F32.mul; n_div := F32.div; n_abs := F32.abs;
   n_cmp := F32.cmp;
   n_ceil_u8 := fun x => F32.to_u8 (F32.ceil x);
   n_floor_u8 := fun x => F32.to_u8 (F32.floor x);
@@ -424,9 +426,12 @@ Definition xq_ceil_u8 (a : xq) : Z :=
 Definition xq_floor_u8 (a : xq) : Z :=
   match a with XFin q => clamp (Qfloor q) | XPInf => 255%Z | _ => 0%Z end.
 
+Definition xq_abs (a : xq) : xq :=
+  match a with XFin q => XFin (Qabs q) | XPInf | XNInf => XPInf | XNaN => XNaN end.
+
 Definition xq_ops : NumOps xq := {|
   n_zero := XFin 0; n_sum0 := XFin 0;
-  n_add := xq_add; n_sub := xq_sub; n_mul := xq_mul; n_div := xq_div;
+  n_add := xq_add; n_sub := xq_sub; n_mul := xq_mul; n_div := xq_div; n_abs := xq_abs;
   n_cmp := xq_cmp;
   n_ceil_u8 := xq_ceil_u8; n_floor_u8 := xq_floor_u8;
   n_of_u8 := fun z => XFin (inject_Z z)
